@@ -672,17 +672,19 @@ class Lexer(object):
 
     # the property name of an accessor (identifier name, string or number)
     # and the parenthesis that opens its parameter list
+    # (a string or a number needs no white space in front of it)
     accessor_name = (
-        r'(?:' + identifier + r'|' + string + r'|' + t_NUMBER + r')' +
+        r'(?:' + accessor_gap + identifier +
+        r'|(?:' + accessor_gap + r')?(?:' + string + r'|' + t_NUMBER + r'))' +
         r'(?:' + accessor_gap + r')?\(')
 
-    getprop = r'get' + r'(?=' + accessor_gap + accessor_name + r')'
+    getprop = r'get' + r'(?=' + accessor_name + r')'
 
     @ply.lex.TOKEN(getprop)
     def t_GETPROP(self, token):
         return self._accessor_or_identifier(token)
 
-    setprop = r'set' + r'(?=' + accessor_gap + accessor_name + r')'
+    setprop = r'set' + r'(?=' + accessor_name + r')'
 
     @ply.lex.TOKEN(setprop)
     def t_SETPROP(self, token):
